@@ -843,6 +843,11 @@ class Unit:
                         if t.text == '{':
                             nxt = toks[sig[pos]].text if pos < len(sig) else None
                             if nxt is None:
+                                # the body ends with a block: a loop (possibly labelled) is a statement, anything else may be the tail value
+                                first = toks[cur_start].text if cur_start is not None else ''
+                                if toks[cur_start].kind == 'lifetime' or first in ('for', 'while', 'loop'):
+                                    last_end = toks[close].end
+                                    cur_start = None
                                 break
                             if nxt in ('else', '.', '?', 'as', '+', '-', '*', '/', '&&', '||', '==', '!=', '<', '>', '<=', '>=', ';', ','):
                                 continue
